@@ -314,6 +314,53 @@ class BracketIndices(Contract):
                  z3.Implies(rng, B.zreal(node.term(i, k)) == z3.If(th(k) <= w.Bs(i), z3.RealVal(1), z3.RealVal(0))))]
 
 
+def in_bracket(T, n, x, k):
+    """x lies in bracket k of the scale with thresholds T[0..n)"""
+    return z3.And(k >= 0, k < n, T(k) <= x, z3.Or(k + 1 >= n, x < T(k + 1)))
+
+
+def below_first(T, n, x):
+    return z3.Or(n <= 0, x < T(0))
+
+
+def fresh_fn(ctx, name):
+    return z3.Function(ctx.fresh_name(name), z3.IntSort(), z3.RealSort())
+
+
+class State:
+    """thresholds / rates of a scale at one moment, as functions of the position"""
+
+    def __init__(self, T, R, n):
+        self.T, self.R, self.n = T, R, n
+
+
+def state_of(I, ctx, scale, second="rates"):
+    th, rt = I.as_seq(ctx, scale.fields["thresholds"]), I.as_seq(ctx, scale.fields[second])
+
+    def fn(seq):
+        if isinstance(seq.length, int):        # a concrete list: position -> element as nested if-then-else
+            def f(q):
+                e = z3.RealVal(0)
+                for j in reversed(range(seq.length)):
+                    e = z3.If(B._z(q) == j, B.zreal(seq.elem(j)), e)
+                return e
+            return f
+        return lambda q: B.zreal(seq.elem(q))
+    return State(fn(th), fn(rt), B._z(th.length)), B._z(rt.length)
+
+
+def positional_facts(before, after, p, present, t, r, q):
+    """what add_bracket does, position by position (free index q)"""
+    if present:
+        return [after.n == before.n, z3.And(p >= 0, p < before.n, before.T(p) == t),
+                z3.Implies(z3.And(q >= 0, q < before.n), z3.And(after.T(q) == before.T(q), after.R(q) == before.R(q) + z3.If(q == p, r, 0)))]
+    return [after.n == before.n + 1, z3.And(p >= 0, p <= before.n),
+            z3.Implies(z3.And(q >= 0, q < before.n), z3.And((q < p) == (before.T(q) < t), before.T(q) != t)),
+            z3.Implies(z3.And(q >= 0, q <= before.n),
+                       z3.And(after.T(q) == z3.If(q < p, before.T(q), z3.If(q == p, t, before.T(q - 1))),
+                              after.R(q) == z3.If(q < p, before.R(q), z3.If(q == p, r, before.R(q - 1)))))]
+
+
 class AddBracket(Contract):
     name = f"{RL}.add_bracket"
     prop = ("C08", "C09")
@@ -351,7 +398,21 @@ class AddBracket(Contract):
                 ("an-existing-threshold-gets-the-value-added",
                  z3.Implies(z3.And(k2 >= 0, k2 < n2, T2(k2) == t, k >= 0, k < w.n, w.T(k) == t), V2(k2) == w.R(k) + r)),
                 ("nothing-else-appears",
-                 z3.Implies(z3.And(k2 >= 0, k2 < n2, T2(k2) != t), z3.Exists([e], z3.And(e >= 0, e < w.n, w.T(e) == T2(k2)))))]
+                 z3.Implies(z3.And(k2 >= 0, k2 < n2, T2(k2) != t), z3.Exists([e], z3.And(e >= 0, e < w.n, w.T(e) == T2(k2)))))] + \
+            self.positional(I, ctx, w, t, r)
+
+    def positional(self, I, ctx, w, t, r):
+        """the same, position by position (the call-site form used by C09's combine_bracket, inverse, to_average, to_marginal):
+        p = where the threshold is / the number of thresholds below it"""
+        after, nr = state_of(I, ctx, w.scale, self.cases[0])
+        before = State(w.T, w.R, w.n)
+        q, p = ctx.fresh_int("q"), ctx.fresh_int("p")
+        e = z3.Int(ctx.fresh_name("e"))
+        at = z3.And(p >= 0, p < w.n, w.T(p) == t)
+        gap = z3.And(p >= 0, p <= w.n, z3.ForAll([e], z3.Implies(z3.And(e >= 0, e < w.n), z3.And((e < p) == (w.T(e) < t), w.T(e) != t))))
+        return [("same-list-objects", w.scale.fields["thresholds"] is w.thresholds and w.scale.fields[self.cases[0]] is w.values),
+                ("present-threshold.position-by-position", z3.Implies(at, z3.And(*positional_facts(before, after, p, True, t, r, q)))),
+                ("new-threshold.position-by-position", z3.Implies(gap, z3.And(*positional_facts(before, after, p, False, t, r, q))))]
 
     NATIVE = "import sys; sys.path.insert(0, '/verif/native')\nimport c08_replay\noutcome = c08_replay.run_add(call)\n"
 
